@@ -127,7 +127,7 @@ def step (args : List String) : String :=
     | .ok p =>
       match kingSq p.b p.wtm with
       | none => "err no-king"
-      | some k => texelDump p k
+      | some k => if Texel.genWFb p k then texelDump p k else "err hypotheses-of-the-generator-theorems-fail"
   | ["tatk", pc, s, occ] =>
     match parseNat? pc, parseNat? s, parseNat? occ with
     | some pc, some s, some occ =>
